@@ -251,6 +251,43 @@ def run(ck):
         found = rules.find_cmp(f, [("call", r"read_to_end$")], [("call", r"try_into$|TryInto::try_into$")], deep=True)
         ck.ob("CMP", f.path, "read_len==declared", any(x[1] == "Ne" for x in found), "fewer payload bytes than declared rejects", f.loc())
 
+    # a decoder that reads a declared length and then decodes from `source.take(length)` consumes EXACTLY that length: every
+    # accepting return after the take passes an enforced test `limit() == 0` (a limited reader only bounds the reads from above;
+    # without the test a length prefix larger than the content is accepted and re-encoded differently). Decoders that drain the
+    # limited reader with read_to_end compare the count instead (rule above)
+    ntake = 0
+    for p0 in sorted(c.paths()):
+        if re.search(r"::tests?::", p0):
+            continue
+        for b in c.get_all(p0):
+            f = Fn(b)
+            tk = f.calls(r"(^|::)Read::take$")
+            if not tk or f.calls(r"read_to_end$"):
+                continue
+            ntake += 1
+            tests = []
+            for cx in rules.comparisons(f):
+                ks = [op_const(cx[s_]) for s_ in ("a", "b")]
+                if not any(k is not None and const_int(k) == 0 for k in ks):
+                    continue
+                if not any(has_call_origin(f.origins(cx[s_]), r"io::Take::<.*>::limit$|io::Take<.*>::limit$") for s_ in ("a", "b") if op_const(cx[s_]) is None):
+                    continue
+                rel, _ = rules.cmp_rejects(f, cx)
+                if rel in ("Ne", "Gt", "Lt"):
+                    tests.append(cx["bb"])
+            # the other exhausting idiom: the rest is read as data of exactly `limit()` bytes
+            for (bi, t) in f.calls(r"serialize::deserial_bytes$|serialize::deserial_vector_no_length$|Read::read_exact$"):
+                if any(op_const(a) is None and has_call_origin(f.origins(a, deep=True), r"io::Take::<.*>::limit$|io::Take<.*>::limit$") for a in t["args"][1:]):
+                    tests.append(bi)
+            acc, _ = f.accept_points()
+            escaped = sorted(a for a in acc if any(a in f.reach_from(f.succ(tb), avoid=set(tests)) for (tb, _) in tk))
+            okt = len(tests) >= len(tk) and not escaped
+            ck.ob("CMP", p0, "limited-reader-exhausted", okt,
+                  "%d take(length) readers, %d exhausting sites (enforced limit() == 0, or the rest read as exactly limit() bytes), every accepting return passes one" % (len(tk), len(tests)) if okt else
+                  "an accepting return is reached after take(length) without an enforced limit() == 0: a declared length larger than the content is accepted (second encoding of the same value)",
+                  f.loc(escaped[0]) if escaped else f.loc(tk[0][0]))
+    ck.floor("CMP", "decoders reading through take(declared length)", ntake, 5)
+
     # ---- bounded pre-allocation, error discipline
     cc = crate("rs", "concordium_contracts_common")
     cg = CallGraph([c, cc])
